@@ -642,7 +642,7 @@ impl Scenario for Nm {
     }
     fn info(&self) -> Info {
         let (rule, faults): (&'static str, Vec<&'static str>) = match self.id {
-            "C28" => ("run = seeded history of AddReferences / DeleteReferences / DeleteNodes (1-2 sessions through the real services) and insert_reference / delete_reference / delete (application actor on the public API) over 6 nodes x 3 reference types, biased towards opposite-direction pairs; after every step forward references, inverse references and has_reference of every node are compared with a triple-set model. non-trivial = history creates an opposite-direction pair, uses the second session or deletes a node; distinct = op/outcome hash.", vec!["opposite_direction_pair", "delete_one_of_opposite_pair", "second_session"]),
+            "C28" => ("run = seeded history of AddReferences / DeleteReferences / DeleteNodes (1-2 sessions through the real services) and insert_reference / delete_reference / delete (application actor on the public API) over 3-6 nodes (some of them referenced by nothing at the start) x 3 reference types, biased towards opposite-direction pairs; after every step forward references, inverse references and has_reference of every node are compared with a triple-set model. non-trivial = history creates an opposite-direction pair, uses the second session or deletes a node; distinct = op/outcome hash.", vec!["opposite_direction_pair", "delete_one_of_opposite_pair", "second_session"]),
             "C29" => ("run = random small reference graph (HasComponent / HasProperty cycles, shared children, Organizes) then DeleteNodes with delete_target_references on a random node, through the service or the API; oracle: the call returns (worker process alive, watchdog), the node and everything it aggregates is gone, no reference mentions a removed node. non-trivial = the deleted node reaches an aggregation cycle or a shared child; distinct = op/outcome hash.", vec!["aggregation_cycle_or_shared_child"]),
             _ => ("run = seeded history of AddNodes (requested and server-assigned ids, new and existing browse names, parents, reference types), AddReferences, DeleteNodes, DeleteReferences with numeric node ids pre-seeded in the range of the server's id counter; oracle: Good AddNodes => node exists and parent has a forward reference of the given type to it, Bad item => state digest unchanged, assigned ids never collide. non-trivial = a server-assigned id was requested or an item was rejected; distinct = op/outcome hash.", vec!["second_session", "missing_parent", "invalid_type_definition"]),
         };
